@@ -172,9 +172,12 @@ def emit_gadget(d, world, acts, shapes=GADGET_SHAPES):
 
 
 def gen_history(d, cfg, *, sides=(0, 1), n_ops=(3, 8), hazards=None, with_base=None, sizes=False,
-                w_op=5, w_step=4, w_settle=1, kinds=OP_KINDS, w_gadget=0, shapes=GADGET_SHAPES):
+                w_op=5, w_step=4, w_settle=1, kinds=OP_KINDS, w_gadget=0, shapes=GADGET_SHAPES,
+                w_extra=0, extra=None, world_init=None):
     """Envelope history: hazard-free user ops on `sides` interleaved arbitrarily with engine steps."""
     world = World(path_style=(cfg["L"] == "path", cfg["R"] == "path"), hazards=hazards)
+    if world_init:
+        world_init(world)
     acts = []
     if with_base is None:
         with_base = d.chance(4, 5)
@@ -185,8 +188,11 @@ def gen_history(d, cfg, *, sides=(0, 1), n_ops=(3, 8), hazards=None, with_base=N
     guard = 0
     while done < n and guard < 10 * n + 20:
         guard += 1
-        k = d.weighted([x for x in (("op", w_op), ("step", w_step), ("settle", w_settle), ("gadget", w_gadget)) if x[1]])
-        if k == "gadget":
+        k = d.weighted([x for x in (("op", w_op), ("step", w_step), ("settle", w_settle), ("gadget", w_gadget),
+                                     ("extra", w_extra)) if x[1]])
+        if k == "extra":
+            extra(d, world, acts)
+        elif k == "gadget":
             if emit_gadget(d, world, acts, shapes) is not None:
                 done += 1
         elif k == "op":
